@@ -18,10 +18,13 @@ import (
 	"os"
 	"os/exec"
 	"path/filepath"
+	stdregexp "regexp"
 	"regexp/syntax"
 	"sort"
 	"strconv"
 	"strings"
+	"sync"
+	"time"
 	"unicode/utf8"
 
 	grafana "github.com/grafana/regexp"
@@ -286,29 +289,90 @@ func trunc(s [][]int) [][]int {
 	return s
 }
 
-// diffClass names the kind of engine disagreement (for known-finding keys): which construct of the pattern is involved.
+// diffClass names the kind of engine disagreement (for known-finding keys). Go's own regexp package is the arbiter of
+// which engine deviates; the sub-class is read off observable facts of the witness.
+//
+//	grafana:foldcase-bytelen   grafana/regexp deviates, the compiled pattern has a case-folded literal and the subject
+//	                           contains a rune with a fold partner of a different UTF-8 length (grafana's case-insensitive
+//	                           literal-prefix search compares a window of the *prefix's* byte length)
+//	re2:span-inside-rune       go-re2 deviates and reports a span boundary that is not a rune boundary (empty-width matches)
 func diffClass(compiled string, subj []byte, sg, sr [][]int) string {
+	who := "both"
+	if std, err := stdregexp.Compile(compiled); err == nil {
+		ss := std.FindAllIndex(subj, -1)
+		switch {
+		case eqSpans(ss, sr):
+			who = "grafana"
+		case eqSpans(ss, sg):
+			who = "re2"
+		}
+	}
+	insideRune := func(spans [][]int) bool {
+		for _, sp := range spans {
+			for _, o := range sp {
+				if o < len(subj) && !utf8.RuneStart(subj[o]) {
+					return true
+				}
+			}
+		}
+		return false
+	}
+	foldLit := false
+	if t, err := syntax.Parse(compiled, syntax.Perl); err == nil {
+		tr, _ := gen.ReTree(t)
+		foldLit = strings.Contains(tr, "L1:")
+	}
+	multiLen := false
+	for _, c := range string(subj) {
+		for _, o := range gen.Orbit(c) {
+			if utf8.RuneLen(o) != utf8.RuneLen(c) {
+				multiLen = true
+			}
+		}
+	}
 	switch {
+	case who == "grafana" && foldLit && multiLen:
+		return "grafana:foldcase-bytelen"
+	case who == "re2" && insideRune(sr):
+		return "re2:span-inside-rune"
 	case strings.Contains(compiled, `\p`) || strings.Contains(compiled, `\P`):
-		return "unicode-class"
-	case strings.Contains(compiled, "(?i"):
-		return "case-folding"
-	case len(sg) == len(sr):
-		return "match-extent"
+		return who + ":unicode-class"
 	default:
-		return "match-count"
+		return who + ":other"
 	}
 }
 
-func (rn *runner) thresholdParsing() {
+func (rn *runner) thresholdParsing(quick bool) {
 	vals := []*string{nil}
-	for _, v := range []string{"", "0", "1", "64", "-1", "-5", "+7", "abc", " 7", "7 ", "007", "1e9", "1000000000", "9223372036854775807",
-		"9223372036854775808", "-9223372036854775808", "-9223372036854775809", "0x10", "1_000", "٣", "--1", "+", "-", "32768"} {
+	all := []string{"", "0", "64", "-5", "+7", "abc", " 7", "9223372036854775808", "1_000", "1", "-1", "7 ", "007", "1e9", "1000000000", "9223372036854775807",
+		"-9223372036854775808", "-9223372036854775809", "0x10", "٣", "--1", "+", "-", "32768"}
+	if quick {
+		all = all[:9]
+	}
+	for _, v := range all {
 		v := v
 		vals = append(vals, &v)
 	}
-	for _, v := range vals {
-		out, err := runChild("thr", v)
+	type res struct {
+		out string
+		err error
+	}
+	results := make([]res, len(vals))
+	var wg sync.WaitGroup
+	sem := make(chan struct{}, 6)
+	for i, v := range vals {
+		wg.Add(1)
+		go func(i int, v *string) {
+			defer wg.Done()
+			sem <- struct{}{}
+			defer func() { <-sem }()
+			out, err := runChild("thr", v)
+			results[i] = res{out, err}
+		}(i, v)
+	}
+	wg.Wait()
+	for i, v := range vals {
+		out, err := results[i].out, results[i].err
 		in := "thr unset"
 		d := detail{Env: "unset"}
 		if v != nil {
@@ -330,6 +394,7 @@ func (rn *runner) dispatch(r *gen.Rand, n int) {
 	r2 := re2.MustCompile(pat)
 	ts := []int64{-1, -2, 0, 1, 2, 3, 63, 64, 65, 1000, 1 << 40, -1 << 40}
 	lens := []int{0, 1, 2, 3, 4, 62, 63, 64, 65, 66, 999, 1000, 1001}
+	compiledAt := map[int64]*verifhooks.HybridRegexp{}
 	for i := 0; i < n; i++ {
 		t := gen.Pick(r, ts)
 		l := gen.Pick(r, lens)
@@ -338,9 +403,14 @@ func (rn *runner) dispatch(r *gen.Rand, n int) {
 			l = r.Range(0, 70)
 		}
 		verifhooks.HybridSetThreshold(t)
-		h, err := verifhooks.HybridCompile(pat)
-		if err != nil {
-			panic(err)
+		h := compiledAt[t]
+		if h == nil {
+			var err error
+			h, err = verifhooks.HybridCompile(pat) // Compile consults the threshold: one compilation per setting
+			if err != nil {
+				panic(err)
+			}
+			compiledAt[t] = h
 		}
 		probe := bytes.Repeat([]byte{0xff}, l)
 		got := h.FindAllIndex(probe, -1)
@@ -403,13 +473,27 @@ func (rn *runner) endToEnd(docs [][]byte, qs []qspec) {
 	defer os.Remove(qf)
 
 	results := map[string][]string{}
-	for _, e := range envSettings {
-		var v *string
-		if e != "unset" {
-			e := e
-			v = &e
-		}
-		out, err := runChild("search", v, sf.Name(), qf)
+	type cres struct {
+		out string
+		err error
+	}
+	outs := make([]cres, len(envSettings))
+	var wg sync.WaitGroup
+	for i, e := range envSettings {
+		wg.Add(1)
+		go func(i int, e string) {
+			defer wg.Done()
+			var v *string
+			if e != "unset" {
+				v = &e
+			}
+			out, err := runChild("search", v, sf.Name(), qf)
+			outs[i] = cres{out, err}
+		}(i, e)
+	}
+	wg.Wait()
+	for i, e := range envSettings {
+		out, err := outs[i].out, outs[i].err
 		if err != nil {
 			rn.w.Emit(gen.Case{Go: "search child failed under " + e + ": " + err.Error(), Key: "e2e-child-crashed", Class: "e2e",
 				Detail: gen.Detail(detail{Env: e, Queries: qs, Docs: docStrings(docs)})})
@@ -429,7 +513,7 @@ func (rn *runner) endToEnd(docs [][]byte, qs []qspec) {
 		for _, e := range envSettings[1:] {
 			if results[e][i] != base[i] {
 				goV = fmt.Sprintf("results under %s=%s differ from unset: %.300q vs %.300q", envName, e, results[e][i], base[i])
-				kind := "ranges"
+				kind := explainE2E(q, docs)
 				if strings.HasPrefix(results[e][i], "panic:") {
 					kind = "panic"
 				}
@@ -447,6 +531,33 @@ func (rn *runner) endToEnd(docs [][]byte, qs []qspec) {
 		}
 		rn.w.Emit(gen.Case{Go: goV, Key: key, Class: cl, Nontrivial: cl == "e2e-match", Detail: gen.Detail(d)})
 	}
+}
+
+// explainE2E classifies an end-to-end difference by the engine disagreement (if any) the query's compiled pattern shows
+// on the documents themselves; "unexplained" if the engines agree on every document.
+func explainE2E(q qspec, docs [][]byte) string {
+	text := q.Pattern
+	if q.ViaParser {
+		if r, err := syntax.Parse(text, query.VerifRegexpFlags); err == nil {
+			text = verifhooks.RegexpString(query.OptimizeRegexp(r, query.VerifRegexpFlags))
+		}
+	}
+	compiled, ok := compiledFor(text, q.CaseSensitive)
+	if !ok {
+		return "unexplained"
+	}
+	g, err1 := grafana.Compile(compiled)
+	r2, err2 := re2.Compile(compiled)
+	if err1 != nil || err2 != nil {
+		return "compile"
+	}
+	for _, d := range docs {
+		sg, sr := g.FindAllIndex(d, -1), r2.FindAllIndex(d, -1)
+		if !eqSpans(sg, sr) {
+			return diffClass(compiled, d, sg, sr)
+		}
+	}
+	return "unexplained"
 }
 
 func docStrings(docs [][]byte) []string {
@@ -521,11 +632,13 @@ func main() {
 	}
 
 	r := gen.NewRand(f.Seed)
-	rn.thresholdParsing()
+	t0 := time.Now()
+	rn.thresholdParsing(f.Tier != "thorough")
 	rn.dispatch(r.Fork(), f.N(150, 2000))
 
+	fmt.Fprintf(os.Stderr, "thr+disp %.1fs\n", time.Since(t0).Seconds())
 	g := &gen.PatGen{R: r.Fork()}
-	n := f.N(700, 20000)
+	n := f.N(1500, 30000)
 	var e2eQs []qspec
 	var e2eHints []string
 	for i := 0; i < n; i++ {
@@ -541,11 +654,12 @@ func main() {
 			subjects = append(subjects, longSubject(r, hints, gen.Pick(r, []int{63, 64, 65, 300, 5000})))
 		}
 		rn.enginePair(text, cs, subjects)
-		if i%7 == 0 && len(e2eQs) < f.N(60, 600) {
+		if i%7 == 0 && len(e2eQs) < f.N(40, 500) {
 			e2eQs = append(e2eQs, qspec{Pattern: text, CaseSensitive: cs, FileName: r.Chance(1, 8), ViaParser: r.Bool()})
 			e2eHints = append(e2eHints, hints...)
 		}
 	}
+	fmt.Fprintf(os.Stderr, "engine pairs %.1fs\n", time.Since(t0).Seconds())
 	// end-to-end: documents of sizes around the thresholds used (0, 1, 63–65 bytes, some KB)
 	rounds := f.N(1, 6)
 	per := (len(e2eQs) + rounds - 1) / rounds
@@ -561,5 +675,6 @@ func main() {
 		hi := min((k+1)*per, len(e2eQs))
 		rn.endToEnd(docs, e2eQs[k*per:hi])
 	}
+	fmt.Fprintf(os.Stderr, "e2e %.1fs\n", time.Since(t0).Seconds())
 	_ = strconv.Itoa
 }
